@@ -4,12 +4,14 @@ import json, os, shutil, sys
 only = [a for a in sys.argv[1:] if not a.startswith("--")]
 rnd = [a[8:] for a in sys.argv[1:] if a.startswith("--round=")]
 suffix = ("r%s-" % rnd[0]) if rnd else ""
+# --src=/tmp/r6/%s : where the sub-agents worked (default: /tmp/seed_<pid>)
+srcpat = ([a[6:] for a in sys.argv[1:] if a.startswith("--src=")] or ["/tmp/seed_%s"])[0]
 for i in range(1, 19):
     pid = "C%02d" % i
     if only and pid not in only:
         continue
     for n in (1, 2, 3):
-        src = "/tmp/seed_%s/out/%d" % (pid, n)
+        src = "%s/out/%d" % (srcpat % pid, n)
         dst = "/verif/seeded/%s-%s%d" % (pid, suffix, n)
         if not all(os.path.exists(os.path.join(src, f)) for f in ("patch.diff", "demo.py", "meta.json")) or os.path.exists(dst):
             continue
@@ -25,7 +27,7 @@ for i in range(1, 19):
                 "origin": "fresh sub-agent given only the property text and a scratch worktree of /repo",
                 "confirmed_by": "tools/run_seeded.py: patch applied to /repo -> existing suite passes, demo.py fails; patch reverted -> demo.py passes (see seeded/RESULTS.json)"}
         # demo paths: make it runnable from /repo
-        d = open(os.path.join(dst, "demo.py")).read().replace("/tmp/seed_%s" % pid, "/repo")
+        d = open(os.path.join(dst, "demo.py")).read().replace(srcpat % pid, "/repo")
         open(os.path.join(dst, "demo.py"), "w").write(d)
         json.dump(meta, open(os.path.join(dst, "meta.json"), "w"), indent=1)
         print("collected", dst)
